@@ -357,12 +357,17 @@ var wsDialMu sync.Mutex
 func c17WSPair(kind string) (*wsPair, error) {
 	wsDialMu.Lock()
 	defer wsDialMu.Unlock()
+	// kind "a>b": client codec a, server codec b (the two implementations must interoperate)
+	clientKind, serverKind := kind, kind
+	if i := strings.Index(kind, ">"); i >= 0 {
+		clientKind, serverKind = kind[:i], kind[i+1:]
+	}
 	l := vh.NewMemListener()
 	p := &wsPair{}
 	got := make(chan error, 1)
 	p.srv = &http.Server{Handler: http.HandlerFunc(func(w http.ResponseWriter, r *http.Request) {
 		var err error
-		if kind == "gorilla" {
+		if serverKind == "gorilla" {
 			p.server, err = (&gorillacodec.Upgrader{}).Upgrade(r, w, nil)
 		} else {
 			p.server, err = (&gobwascodec.Upgrader{}).Upgrade(r, w, nil)
@@ -378,7 +383,7 @@ func c17WSPair(kind string) (*wsPair, error) {
 	var err error
 	ctx, cancel := context.WithTimeout(context.Background(), 2*time.Minute)
 	defer cancel()
-	if kind == "gorilla" {
+	if clientKind == "gorilla" {
 		old := websocket.DefaultDialer.NetDial
 		websocket.DefaultDialer.NetDial = func(network, addr string) (net.Conn, error) { return dial(), nil }
 		p.client, err = gorillacodec.WebSocketDial(ctx, "ws://mem.invalid/")
@@ -672,6 +677,14 @@ func init() {
 				for _, dir := range []string{"client-to-server", "server-to-client"} {
 					for s := 0; s < 5; s++ {
 						us = append(us, c17WSChunks(kind, dir, s, 5))
+					}
+				}
+			}
+			// the two implementations talking to each other (they frame differently: text vs binary)
+			for _, kind := range []string{"gobwas>gorilla", "gorilla>gobwas"} {
+				for _, dir := range []string{"client-to-server", "server-to-client"} {
+					for s := 0; s < 2; s++ {
+						us = append(us, c17WSChunks(kind, dir, s, 2))
 					}
 				}
 			}
